@@ -489,6 +489,16 @@ fn happy_path(s: &mut Session) {
         s.req(Some(0), "solve", json!({"name": name, "strategy": "Stable"})); // second time: refused
         s.settle(true);
     }
+    // the same strategies in the opposite order on a third problem: whichever slot a handler looks at, every strategy can be had
+    // after any other one
+    s.req(Some(0), "add", json!({"name": "HR", "parsing": "Naive", "class": "good",
+        "code": "s(a).s(b).s(c).ac(a,neg(b)).ac(b,neg(a)).ac(c,and(a,neg(b)))."}));
+    s.settle(true);
+    for st in ["StableNogood", "StableCountingB", "StableCountingA", "Stable", "Complete", "Ground"] {
+        s.req(Some(0), "solve", json!({"name": "HR", "strategy": st}));
+        s.settle(true);
+    }
+    s.req(Some(0), "get", json!({"name": "HR"}));
     s.req(Some(0), "add", json!({"name": "BAD", "parsing": "Naive", "class": "bad", "code": "s(a).ac(a,and(a)."}));
     s.settle(true);
     s.req(Some(0), "get", json!({"name": "BAD"}));
@@ -497,6 +507,7 @@ fn happy_path(s: &mut Session) {
     s.final_phase = true;
     s.req(Some(0), "get", json!({"name": "H0"}));
     s.req(Some(0), "get", json!({"name": "H1"}));
+    s.req(Some(0), "get", json!({"name": "HR"}));
     s.req(Some(0), "list", json!({}));
     s.settle(true);
     s.final_phase = false;
